@@ -92,6 +92,45 @@ def concrete_gd(inp):
     return {"ok": ok, "detail": "%s %s T=%.6g x=%.6g: Gibbs-Duhem residual %.3e (scale %.3e)" % (mix.name, model, T, x, res, scale)}
 
 
+def concrete_gd_modulo(inp):
+    """replay of `gibbs_duhem_modulo_listed_deviation`: the real code's ln gamma_2 minus the listed deviation (the mistyped residual
+    bracket, evaluated numerically) must satisfy Gibbs-Duhem together with ln gamma_1 -- so that this obligation's replay does not
+    'reproduce' merely because of the listed finding itself"""
+    T, x = inp.get("T"), inp.get("x")
+    if T is None or x is None or not (273 < T < 400 and 1e-3 < x < 1 - 1e-3):
+        return {"ok": True, "detail": "outside domain"}
+    mix = _fmix(inp)
+    c1, c2 = mix.first_component.uniquac_constants, mix.second_component.uniquac_constants
+    up = mix.uniquac_params
+    if c1 is None or c2 is None or up is None:
+        return {"ok": True, "detail": "no UNIQUAC data"}
+
+    def dev(xx):
+        q1, q2 = c1.q_interaction, c2.q_interaction
+        sden = xx * q1 + (1 - xx) * q2
+        th1, th2 = xx * q1 / sden, (1 - xx) * q2 / sden
+        t12 = math.exp(-(up.alpha_12 + up.beta_12 / T) / T)
+        t21 = math.exp(-(up.alpha_21 + up.beta_21 / T) / T)
+        code = t12 / (th2 + th1 * t21) - t12 / (th1 + th2 * t12)
+        right = t12 / (th2 + th1 * t12) - t21 / (th1 + th2 * t21)
+        return th1 * q2 * (code - right)
+
+    def f(xx):
+        g = mixmod.calculate_activity_coefficients(T, mix, mixmod.Composition(xx, "molar"), "UNIQUAC")
+        return math.log(float(g[0])), math.log(float(g[1])) - dev(xx)
+    h = 1e-6
+    try:
+        a, b = f(x + h), f(x - h)
+    except (OverflowError, ValueError, ZeroDivisionError, FloatingPointError) as e:
+        return {"ok": True, "detail": "numerically degenerate point: %r" % (e,)}
+    d1, d2 = (a[0] - b[0]) / (2 * h), (a[1] - b[1]) / (2 * h)
+    res, scale = x * d1 + (1 - x) * d2, max(abs(x * d1), abs((1 - x) * d2), 1e-6)
+    if not math.isfinite(res) or not math.isfinite(scale):
+        return {"ok": True, "detail": "non-finite"}
+    ok = abs(res) <= 1e-5 * scale + 1e-7
+    return {"ok": ok, "detail": "%s UNIQUAC T=%.6g x=%.6g: Gibbs-Duhem residual %.3e beyond the listed deviation (scale %.3e)" % (mix.name, T, x, res, scale)}
+
+
 def concrete_pp(inp):
     """partial pressures = x*gamma*Psat, basis independent, pure limits, Raoult -- on the real code"""
     T, x = inp.get("T"), inp.get("x")
@@ -285,7 +324,7 @@ def uniquac(job, names=None):
                     gd = x.t * terms.deriv(ln1, x.t) + (1 - x.t) * terms.deriv(ln2, x.t)
                     cons2, _ = terms.zero_query(terms.generalise(gd, x.t, {}))
                     st2 = job.prove(tag + "/gibbs_duhem_modulo_listed_deviation", dom + leaf.conds() + cons2[:-1], cons2[-1],
-                                    R_GD, inputs, fallback=fb, timeout=60)
+                                    "vf.props.C04:concrete_gd_modulo", inputs, fallback=fb, timeout=60)
                     if st2 == "discharged":
                         job.mark_known(tag + "/gibbs_duhem", entry["what"])
             job.prove(tag + "/pure_1", [], terms.subst(lift(g1), [(x.t, z3.RealVal(1))]) != 1, R_PP, inputs)
